@@ -1295,7 +1295,8 @@ def _pspace_elem_getitem(rep, model):
     from ..spacemodel import (SMInterp, SMHooks, NSpace, NPSpace, NElem,
                               NPElem, sym_elem, flat)
     from ..namodel import NA
-    from ..symex import ClassV, Func, PyRaise, is_scalar, to_rat
+    from ..symex import ClassV, Func, PyRaise, Rec, is_scalar, to_rat
+    from ..ratfun import Rat
     PSP = 'odl/space/pspace.py'
     ci = model.get('ProductSpaceElement')
     if ci is None or '__getitem__' not in ci.methods:
@@ -1306,8 +1307,16 @@ def _pspace_elem_getitem(rep, model):
     class H(SMHooks):
         def on_call(self, interp, f, args, kwargs, node):
             if isinstance(f, ClassV) and f.ci.name == 'ProductSpace':
-                return NPSpace(list(args), None)
+                w = kwargs.get('weighting')
+                if isinstance(w, Rec) and w.kind == 'pweighting':
+                    w = w.attrs['weights']
+                return NPSpace(list(args), w)
             return SMHooks.on_call(self, interp, f, args, kwargs, node)
+
+        def on_getattr(self, interp, obj, name):
+            if isinstance(obj, NPSpace) and name == 'weighting':
+                return Rec('pweighting', weights=obj.weights)
+            return SMHooks.on_getattr(self, interp, obj, name)
 
         def on_binop(self, interp, op, l, r):
             if isinstance(l, slice) or isinstance(r, slice) or (
@@ -1317,6 +1326,11 @@ def _pspace_elem_getitem(rep, model):
             return SMHooks.on_binop(self, interp, op, l, r)
 
         def on_subscript(self, interp, obj, idx):
+            if isinstance(obj, NPSpace) and isinstance(idx, list):
+                # ProductSpace.__getitem__(list): the listed components with
+                # their weights (C20-R7c)
+                return NPSpace([obj.parts[i] for i in idx],
+                               [obj.weights[i] for i in idx])
             r = SMHooks.on_subscript(self, interp, obj, idx)
             if isinstance(obj, NElem) and isinstance(r, NA):
                 # NumpyTensor.__getitem__: an array-valued selection is an
@@ -1334,7 +1348,8 @@ def _pspace_elem_getitem(rep, model):
         try:
             I = SMInterp(model, {}, H())
             X = NSpace((3,), 'float64', None)
-            P = NPSpace([X, X], None)
+            wts = [Rat.var('p0'), Rat.var('p1')]
+            P = NPSpace([X, X], list(wts))
             x = sym_elem(P, 'x')
             stacked = _np.array([list(flat(p)) for p in x.parts],
                                 dtype=object)
@@ -1350,11 +1365,26 @@ def _pspace_elem_getitem(rep, model):
                 got = [to_rat(r)]
             else:
                 raise Undecided('result %r' % (r,))
+            wsel = None
+            if isinstance(r, NPElem) and not isinstance(idx[0], int):
+                # the component weights of the selected components
+                wsel = list(_np.array(wts, dtype=object)[idx[0]])
+                gw = r.space.weights
+                gw = [Rat.const(1)] * len(r.parts) if gw is None else (
+                    list(gw) if isinstance(gw, (list, tuple)) else
+                    [gw] * len(r.parts))
             if len(got) != len(want) or any(
                     not (to_rat(g) - to_rat(w)).is_zero()
                     for g, w in zip(got, want)):
                 rep.violation('R7f', cons, 'selects %r, the stacked array '
                               'indexed the same way gives %r' % (got, want),
+                              PSP, fn.lineno)
+            elif wsel is not None and (len(gw) != len(wsel) or any(
+                    not (to_rat(a) - to_rat(b)).is_zero()
+                    for a, b in zip(gw, wsel))):
+                rep.violation('R7f', cons, 'the selection lies in a product '
+                              'space with component weights %r, the selected '
+                              'components have the weights %r' % (gw, wsel),
                               PSP, fn.lineno)
             else:
                 rep.holds('R7f', cons, 'the entries NumPy indexing selects')
